@@ -741,3 +741,51 @@ Proof.
     vm_compute. discriminate.
   - split; [repeat constructor|]. split; [eexists; vm_compute; reflexivity | repeat constructor].
 Qed.
+
+(** * Layers A and B together: the verdict in terms of the rule lists *)
+From AGH Require Import Proofs.RuleEngine.
+
+(** Among the block-list rules that match the request and survive $badfilter
+    there is one of the highest priority class present, and it is not an
+    exception. *)
+Definition wins_block (rs : list rule) (rq : ufreq) : Prop :=
+  exists b, In b (remove_badfilter (match_all rs rq)) /\ nr_white b = false /\
+            forall r', In r' (remove_badfilter (match_all rs rq)) -> (rule_class r' <= rule_class b)%nat.
+
+(** No rule of the list matches: neither a network rule nor a hosts-style line. *)
+Definition no_rule_matches (rs : list rule) (rq : ufreq) : Prop :=
+  match_all rs rq = [] /\ host_hits rs (rq_host rq) = [].
+
+Lemma engine_blocks rs rq :
+  rq_host rq <> [] -> wins_block rs rq ->
+  exists n, match_request rs rq = (mkRes (Some n) [] [], true) /\ nr_white n = false.
+Proof.
+  intros Hh (b & Hb & Hw & Hmax). unfold match_request.
+  destruct (rq_host rq) as [|x xs] eqn:Eh; [congruence|].
+  destruct (get_dns_basic_rule (match_all rs rq)) as [n|] eqn:E.
+  - exists n. split; [reflexivity|].
+    destruct (basic_rule_max_class _ _ E) as [Hin Hn].
+    specialize (Hn b Hb). specialize (Hmax n Hin).
+    rewrite class_white in *. replace (rule_class n) with (rule_class b) by lia. exact Hw.
+  - apply basic_rule_none in E. rewrite E in Hb. destruct Hb.
+Qed.
+
+Lemma engine_silent rs rq : no_rule_matches rs rq -> snd (match_request rs rq) = false.
+Proof.
+  intros [Hn Hh]. unfold match_request. destruct (rq_host rq); [reflexivity|].
+  rewrite Hn. cbn. rewrite Hh. reflexivity.
+Qed.
+
+(** The premise of C01_blocked_is_local read over the rule lists themselves
+    (lists of any length): no allow-list rule matches the name, and a
+    non-exception rule of the block lists / custom rules wins. *)
+Theorem list_blocked_from_rules allow block st host qt :
+  host <> [] -> st_filtering st = true ->
+  no_rule_matches allow (rq_of st host qt) -> wins_block block (rq_of st host qt) ->
+  list_blocked (match_request allow) (match_request block) st host qt.
+Proof.
+  intros Hh Hf Ha Hb. unfold list_blocked.
+  destruct (engine_blocks block (rq_of st host qt) Hh Hb) as (n & Hm & Hw).
+  repeat split; [exact Hf | apply engine_silent; exact Ha | rewrite Hm; reflexivity |].
+  rewrite Hm. cbn [fst]. unfold blocklist_result. cbn [dr_net]. rewrite Hw. reflexivity.
+Qed.
